@@ -435,6 +435,8 @@ func (g *vfGamma) responseParts(r *vfRecipe) (string, []vfHdr, []byte) {
 		st = []string{own, fmt.Sprintf("SIP/2.0/UDP %s:5062;rport=7777;branch=z9hG4bKc%s", c1, x)}
 	case "rportempty":
 		st = []string{own, fmt.Sprintf("SIP/2.0/UDP %s:5062;received=%s;rport;branch=z9hG4bKc%s", c1, c3, x), deep}
+	case "rpempty.noport": // received + valueless rport + sent-by without a port: the default port of the transport
+		st = []string{own, fmt.Sprintf("SIP/2.0/UDP client.example.com;rport;received=%s;branch=z9hG4bKc%s", c3, x), deep}
 	case "tcp":
 		st = []string{own, fmt.Sprintf("SIP/2.0/TCP %s:5062;branch=z9hG4bKc%s", c1, x)}
 	case "tls":
@@ -510,7 +512,7 @@ func (pr *vfProxyRun) sinks(lport int) {
 		{"10.0.1.1", 5070}, {"10.0.1.1", 5060}, {"10.0.1.2", 5060}, {"10.0.1.3", 5060}, {"10.0.1.3", 5061},
 		{"10.0.1.4", 6001}, {"10.0.1.5", 5060}, {"10.0.1.6", 5060}, {"10.0.1.7", 5080},
 		{"10.0.2.1", 5062}, {"10.0.2.1", 5060}, {"10.0.2.1", 5061}, {"10.0.2.1", 7777}, {"10.0.2.2", 5060}, {"10.0.2.2", 5064},
-		{"10.0.2.3", 5062}, {"10.0.2.3", 7777}, {"10.0.2.9", 5062}, {"10.0.2.9", 5060}, {"10.0.5.5", 40000}, {"10.0.5.5", 5062},
+		{"10.0.2.3", 5062}, {"10.0.2.3", 7777}, {"10.0.2.3", 5060}, {"10.0.2.9", 5062}, {"10.0.2.9", 5060}, {"10.0.5.5", 40000}, {"10.0.5.5", 5062},
 	} {
 		vfAllSinks.get(pr.t, g.ip(sp[0].(string)), sp[1].(int))
 	}
